@@ -66,6 +66,9 @@ def configs(tier, seed, prefix="index"):
     for algo, P in (("T_HOO", 30), ("HCT", 30), ("VHCT", 30)):
         pre = {"P": P, "k": 1, "seed": 5, "peak": 0.3, "noise": 0.9, "pattern": "clip_int"}
         out.append({"name": "%s-%s-B-d1-P%d+1-clipint" % (prefix, algo, P), "algo": algo, "part": "B", "d": 1, "T": P + 1, "params": {}, "prefix": pre, "cost": P * 5})
+    for algo, P in (("T_HOO", 40), ("HCT", 40), ("VHCT", 40)):
+        pre = {"P": P, "k": 1, "seed": 2, "peak": 0.55, "noise": 1.0, "offset": -1048576.0}
+        out.append({"name": "%s-%s-B-d1-P%d+1-offset" % (prefix, algo, P), "algo": algo, "part": "B", "d": 1, "T": P + 1, "params": {}, "prefix": pre, "cost": P * 5})
     # across the doubling epoch at round 512/513 (HCT, VHCT) and 1024/1025 (thorough): t+ and with it every threshold and
     # confidence width change there; the 511 (1023) concrete rounds before are checked like any other round (seed S-C05-6)
     for algo, P, k in (("HCT", 511, 3), ("VHCT", 512, 1)) + ((("HCT", 1023, 3), ("VHCT", 1024, 1)) if q else ()):
